@@ -396,6 +396,17 @@ let handle (line : string) : string =
             Buffer.add_string b " WRITTEN "; Buffer.add_string b (tok_of_bytes o.so_written);
             Buffer.add_string b (Printf.sprintf " CONSUMED %d" (total - List.length (all_bytes o.so_rs)))
         | None -> Buffer.add_string b "OUTOFFUEL")
+   | "TLSCELL" ->
+       let tl = next_bool t in let vf = next_bool t in
+       let srv = (match next t with "plain" -> SrvPlain | "tls" -> SrvTls | s -> raise (Parse ("srv " ^ s))) in
+       let cert = (match next t with "match" -> CertMatch | "wrongname" -> CertWrongName | "untrusted" -> CertUntrusted | s -> raise (Parse ("cert " ^ s))) in
+       let ad = (match next t with "host" -> AddrHost | "ip" -> AddrIp | s -> raise (Parse ("addr " ^ s))) in
+       let port = next_bytes t in
+       let cell = { c_tls = tl; c_verify = vf; c_srv = srv; c_cert = cert; c_addr = ad } in
+       let tok o = (match o with OPlain -> "plain" | OTls -> "tls" | ORefused -> "refused" | ONoService -> "noservice") in
+       Buffer.add_string b ("TLSCELL " ^ tok (model_outcome domain_of port cell) ^ " spec " ^ tok (spec_outcome cell))
+   | "DOMAIN" ->
+       let a = next_bytes t in Buffer.add_string b ("DOMAIN " ^ tok_of_bytes (domain_of a))
    | "CL" ->
        let _ = next t in
        let n = next_int t in
